@@ -183,10 +183,10 @@ int main(void)
         const int before = st->imb_errno;
 #if %d
         const errset_t spec = (spec_light_inv(cm, ha, dir, kl) ? SPEC_ANY : 0) | spec_light_errs(cm, ha, dir, kl);
-        const int ret = is_job_invalid_light(st, cm, ha, dir, (IMB_KEY_SIZE_BYTES) kl);
+        const int ret = is_job_invalid_light(st, cm, ha, dir, kl); /* implicit conversion as in the callers */
 #else
         const errset_t spec = spec_eval(&j, cm, ha, dir, kl);
-        const int ret = is_job_invalid(st, &j, cm, ha, dir, (IMB_KEY_SIZE_BYTES) kl);
+        const int ret = is_job_invalid(st, &j, cm, ha, dir, kl); /* implicit conversion as in the callers */
 #endif
         int bad = 0;
         printf("cipher_mode=%%d hash_alg=%%d dir=%%d key_len=%%llu -> checker ret=%%d errno=%%d (%%s); catalogue: %%s errset=0x%%llx\\n",
